@@ -46,9 +46,10 @@
    value, Model/Printer.v [denote_value]: the decimal written, exactly; `w a/b` as w + a/b; both ends of a
    range; the cleaned text), so the recipe-level round trip covers the numbers, not only the event-level one
    (C01_events_roundtrip).
-   The class proved ([adoc_ok]) excludes the switch to text mode: there the collector copies the source range
-   of each component, and the printer theorems say nothing about spans; [denote] states that reading all the
-   same and it is compared with the implementation on examples (Properties/C01.v). *)
+   Text mode is inside the class proved ([adoc_ok]): there the collector copies the source range of each
+   component, and Proofs/RoundTripSpans.v shows that in a printed document this range is the printed component
+   (a component event spans exactly the tokens its parser consumed), whose copy without comments is
+   [written (print_comp c)]. *)
 From CL Require Export Model.Printer.
 From CL Require Model.Events Model.Analysis.
 
@@ -479,6 +480,13 @@ Definition denote (ci : str -> str) (find_iq : str -> option (str * str)) (inlin
      Analysis.r_timers := map raw_timer (filter is_tm (live_comps modes d mode0));
      Analysis.r_inline := inline_count find_iq inline modes d mode0 cnt0 |}.
 
+(* text mode is in force for some block of the document (at the first block: [m]) *)
+Fixpoint text_reached (modes : bool) (d : list block) (m : mode) : bool :=
+  match d with
+  | [] => false
+  | b :: r => in_text_mode m || text_reached modes r (next_mode modes m b)
+  end.
+
 (* the metadata entries, in order: cleaned key, trimmed value *)
 Definition meta_entries (d : list block) : list (str * str) :=
   flat_map (fun b => match b with BkMeta k v => [(clean (toks_text k), trim (toks_text v))] | _ => [] end) d.
@@ -532,18 +540,19 @@ Section Class.
     | IComp c => inter_ok k c && match cs_kind c with CTm => timer_ok c | _ => true end
     end.
 
-  (* a `>>` entry while MODES is on: not a mode key with an undocumented value, and not the switch to text mode *)
+  (* a `>>` entry while MODES is on: not a mode key with an undocumented value *)
   Definition config_ok (b : block) : bool :=
     negb (Analysis.x_modes x) ||
     match block_config b with
-    | Some CfBad | Some (CfDefine Analysis.DMText) => false
+    | Some CfBad => false
     | _ => true
     end.
 
+  (* in text mode a step block is text: nothing in it is analysed *)
   Definition ablock_ok (m : mode) (k : ictx) (b : block) : bool :=
     match b with
     | BkMeta _ _ => config_ok b
-    | BkStep items => forallb (aitem_ok m k) items
+    | BkStep items => in_text_mode m || forallb (aitem_ok m k) items
     | _ => true
     end.
 
@@ -553,9 +562,9 @@ Section Class.
     | b :: r => ablock_ok m k b && ablocks_ok r (next_mode (Analysis.x_modes x) m b) (next_ctx m k b)
     end.
 
-  (* decidable given the oracles: every mode switch has a documented value and none goes to text mode, timers
+  (* decidable given the oracles: every mode switch has a documented value; outside text mode timers are
      acceptable to ADVANCED_UNITS, every intermediate reference has its target, every reference (by `&`, by steps
-     mode, by duplicate-reference mode) is well formed, and the step counter stays within u32 *)
+     mode, by duplicate-reference mode) is well formed; and the step counter stays within u32 *)
   Definition adoc_ok (d : list block) : bool :=
     ablocks_ok d mode0 ictx0 &&
     refs_ok ci inherit_igr [] (doc_entries (Analysis.x_modes x) is_igr d mode0 ictx0) &&
